@@ -21,7 +21,7 @@ thread_local! {
 const M: u64 = 2147483647; // 2^31 - 1
 const CHUNK: u64 = 1 << 20;
 
-const PANEL: [(f32, f32); 12] = [
+const PANEL: [(f32, f32); 18] = [
     (0.0, 1.0),
     (-1.0, 1.0),
     (0.25, 0.25),
@@ -34,6 +34,13 @@ const PANEL: [(f32, f32); 12] = [
     (-16777216.0, 16777217.0),
     (-3.0e38, 3.0e38),
     (f32::MIN, f32::MAX),
+    // upper bounds that are zero or negative, intervals far from zero
+    (-1.0, 0.0),
+    (-3.0, -1.0),
+    (-1000.0, -999.0),
+    (-2.5, -0.0),
+    (999.0, 1000.0),
+    (-1e-38, 0.0),
 ];
 
 fn check_generate(s: u64, out: &mut Out, per_sig: &mut Vec<String>) {
@@ -217,7 +224,7 @@ impl Monitor for C18 {
         }
     }
     fn rule(&self) -> &'static str {
-        "states_*: one case per chunk of seeds s; create(s) + one draw visits generator state 48271*s mod m (a bijection on [1,m-1]); per state: generate() over a 12-pair (min,max) panel (incl. two intervals whose width overflows f32) must be finite and in [min,max], shuffle(len 1) and shuffle(len 2..6) must return a permutation without panicking, states whose unit draw is >= 0.999999 are swept over every len 1..200; distinct = number of distinct states visited. seeds: seed classes (0, 1, small, around m, multiples of m, 2^32, >3.8e14, u64::MAX, timestamps) x lengths 0..200: no panic, permutation (index vectors; vectors with repeated entries and vectors with entries of any magnitude - 64-bit hashes, usize::MAX - k, powers of two up to 2^63: same multiset), one generator object shuffling twelve vectors of changing length in turn, purity (same seed twice; same seed while a second generator draws and shuffles in between). clock: Tensor::random's possible clock seeds (subsec_micros in [0,1e6)) replayed through Generator for 256 draws. tensor_random: Tensor::random itself for every rank (extents 1..6; in every eighth request one extent, at any position, is 0: the empty nesting must come back as requested); every third request follows a request for a shape the library refuses (rank 5 / nested), which must not disturb it. huge_shuffle: index vectors of 2^24 + {1, 3, 4, 8, 12, 20, 36, 100} entries (positions a single-precision index cannot name exactly): no panic, every index exactly once."
+        "states_*: one case per chunk of seeds s; create(s) + one draw visits generator state 48271*s mod m (a bijection on [1,m-1]); per state: generate() over an 18-pair (min,max) panel (incl. two intervals whose width overflows f32 and six with a zero or negative upper bound or far from zero) must be finite and in [min,max], shuffle(len 1) and shuffle(len 2..6) must return a permutation without panicking, states whose unit draw is >= 0.999999 are swept over every len 1..200; distinct = number of distinct states visited. seeds: seed classes (0, 1, small, around m, multiples of m, 2^32, >3.8e14, u64::MAX, timestamps) x lengths 0..200: no panic, permutation (index vectors; vectors with repeated entries and vectors with entries of any magnitude - 64-bit hashes, usize::MAX - k, powers of two up to 2^63: same multiset), one generator object shuffling twelve vectors of changing length in turn, purity (same seed twice; same seed while a second generator draws and shuffles in between). clock: Tensor::random's possible clock seeds (subsec_micros in [0,1e6)) replayed through Generator for 256 draws. tensor_random: Tensor::random itself for every rank (extents 1..6; in every eighth request one extent, at any position, is 0: the empty nesting must come back as requested); every third request follows a request for a shape the library refuses (rank 5 / nested), which must not disturb it. huge_shuffle: index vectors of 2^24 + {1, 3, 4, 8, 12, 20, 36, 100} entries (positions a single-precision index cannot name exactly): no panic, every index exactly once."
     }
     fn assumptions(&self) -> Vec<&'static str> {
         vec![
